@@ -24,6 +24,9 @@ fn r(v: &Variant) -> String {
 struct Logical {
     /// (spelling, value for instance i)
     spellings: Vec<(&'static str, fn(usize) -> Variant)>,
+    /// one more configuration: the instance carries these two plain spellings at once, with
+    /// the *same* value (so that "the value it had" stays unambiguous)
+    both: Option<(&'static str, &'static str, fn(usize) -> Variant)>,
 }
 
 fn menus(class: &str) -> Vec<Logical> {
@@ -85,41 +88,41 @@ fn menus(class: &str) -> Vec<Logical> {
         // a property whose values must be unique within a DOM: the default (nil) can be shown by
         // one instance only
         "Folder" => vec![
-            Logical { spellings: vec![("UniqueId", uid)] },
-            Logical { spellings: vec![("ZzFoo", foo)] },
+            Logical { spellings: vec![("UniqueId", uid)], both: None },
+            Logical { spellings: vec![("ZzFoo", foo)], both: None },
         ],
         "Part" => vec![
-            Logical { spellings: vec![("Size", size), ("size", size)] },
-            Logical { spellings: vec![("Color", color3), ("Color3uint8", color8), ("BrickColor", brick), ("brickColor", brick)] },
-            Logical { spellings: vec![("Anchored", anchored)] },
-            Logical { spellings: vec![("ZzFoo", foo)] },
+            Logical { spellings: vec![("Size", size), ("size", size)], both: Some(("Size", "size", size)) },
+            Logical { spellings: vec![("Color", color3), ("Color3uint8", color8), ("BrickColor", brick), ("brickColor", brick)], both: Some(("Color", "Color3uint8", color8)) },
+            Logical { spellings: vec![("Anchored", anchored)], both: None },
+            Logical { spellings: vec![("ZzFoo", foo)], both: None },
         ],
         "TextLabel" => vec![
-            Logical { spellings: vec![("Font", font_enum), ("FontFace", font_face)] },
-            Logical { spellings: vec![("Text", text)] },
-            Logical { spellings: vec![("ZzFoo", foo)] },
+            Logical { spellings: vec![("Font", font_enum), ("FontFace", font_face)], both: None },
+            Logical { spellings: vec![("Text", text)], both: None },
+            Logical { spellings: vec![("ZzFoo", foo)], both: None },
         ],
         "ScreenGui" => vec![
-            Logical { spellings: vec![("IgnoreGuiInset", ignore_inset), ("ScreenInsets", insets)] },
-            Logical { spellings: vec![("Enabled", enabled)] },
-            Logical { spellings: vec![("ZzFoo", foo)] },
+            Logical { spellings: vec![("IgnoreGuiInset", ignore_inset), ("ScreenInsets", insets)], both: None },
+            Logical { spellings: vec![("Enabled", enabled)], both: None },
+            Logical { spellings: vec![("ZzFoo", foo)], both: None },
         ],
         // a class with several migrating properties of different targets
         "MeshPart" => vec![
-            Logical { spellings: vec![("MeshId", mesh_id), ("MeshContent", mesh_content)] },
-            Logical { spellings: vec![("TextureID", mesh_id), ("TextureContent", mesh_content)] },
-            Logical { spellings: vec![("BrickColor", brick), ("Color3uint8", color8)] },
+            Logical { spellings: vec![("MeshId", mesh_id), ("MeshContent", mesh_content)], both: None },
+            Logical { spellings: vec![("TextureID", mesh_id), ("TextureContent", mesh_content)], both: None },
+            Logical { spellings: vec![("BrickColor", brick), ("Color3uint8", color8)], both: None },
         ],
         // two canonical properties of the bundled database that are stored under one serialized name
         "Sound" => vec![
-            Logical { spellings: vec![("MaxDistance", dist_a), ("RollOffMaxDistance", dist_b)] },
-            Logical { spellings: vec![("Volume", dist_a)] },
-            Logical { spellings: vec![("ZzFoo", foo)] },
+            Logical { spellings: vec![("MaxDistance", dist_a), ("RollOffMaxDistance", dist_b)], both: None },
+            Logical { spellings: vec![("Volume", dist_a)], both: None },
+            Logical { spellings: vec![("ZzFoo", foo)], both: None },
         ],
         _ => vec![
-            Logical { spellings: vec![("ZzFoo", foo)] },
-            Logical { spellings: vec![("ZzBar", bar)] },
-            Logical { spellings: vec![("ZzBaz", anchored)] },
+            Logical { spellings: vec![("ZzFoo", foo)], both: None },
+            Logical { spellings: vec![("ZzBar", bar)], both: None },
+            Logical { spellings: vec![("ZzBaz", anchored)], both: None },
         ],
     }
 }
@@ -128,14 +131,14 @@ pub const CLASSES: [&str; 7] = ["Part", "TextLabel", "ScreenGui", "ZzUnknown", "
 
 /// An instance configuration: per logical property 0 = absent, k = spelling k-1.
 fn config_count(class: &str) -> usize {
-    menus(class).iter().map(|l| l.spellings.len() + 1).product()
+    menus(class).iter().map(|l| l.spellings.len() + 1 + l.both.is_some() as usize).product()
 }
 
 fn decode_config(class: &str, mut code: usize) -> Vec<usize> {
     menus(class)
         .iter()
         .map(|l| {
-            let n = l.spellings.len() + 1;
+            let n = l.spellings.len() + 1 + l.both.is_some() as usize;
             let c = code % n;
             code /= n;
             c
@@ -155,7 +158,11 @@ fn props_for(class: &str, code: usize, i: usize) -> Vec<(String, Variant)> {
     let cfg = decode_config(class, code);
     let mut out = Vec::new();
     for (l, c) in m.iter().zip(cfg) {
-        if c > 0 {
+        if c > l.spellings.len() {
+            let (a, b, f) = l.both.expect("both configuration");
+            out.push((a.to_owned(), f(i)));
+            out.push((b.to_owned(), f(i)));
+        } else if c > 0 {
             let (name, f) = l.spellings[c - 1];
             out.push((name.to_owned(), f(i)));
         }
